@@ -1,23 +1,151 @@
 package main
 
 import (
+	"encoding/json"
+	"flag"
 	"fmt"
 	"os"
-
-	"golang.org/x/tools/go/packages"
-	"golang.org/x/tools/go/ssa"
-	"golang.org/x/tools/go/ssa/ssautil"
+	"runtime"
+	"sort"
+	"strings"
 )
 
 func main() {
-	cfg := &packages.Config{Mode: packages.LoadAllSyntax, Dir: os.Args[1], BuildFlags: []string{"-tags=verif"}}
-	pkgs, err := packages.Load(cfg, "./...")
+	if len(os.Args) < 2 {
+		fmt.Fprintln(os.Stderr, "usage: govc <list|loops|verify|check|regl> ...")
+		os.Exit(2)
+	}
+	cmd := os.Args[1]
+	fs := flag.NewFlagSet(cmd, flag.ExitOnError)
+	repo := fs.String("repo", envOr("VERIF_REPO", "/repo"), "repository")
+	specs := fs.String("specs", envOr("VERIF_SPECS", "/verif/specs"), "spec directory")
+	fnFlag := fs.String("fn", "", "comma-separated function keys (substring match)")
+	prop := fs.String("prop", "", "property id")
+	beh := fs.String("beh", "", "behaviour")
+	timeout := fs.Int("timeout", 10, "per-solver timeout (s)")
+	out := fs.String("out", "/verif/work/adhoc", "work directory")
+	thorough := fs.Bool("thorough", false, "consult all solvers")
+	tier := fs.String("tier", envOr("VERIF_TIER", "quick"), "quick|thorough")
+	verbose := fs.Bool("v", false, "verbose")
+	jobs := fs.Int("j", runtime.NumCPU(), "parallel solver processes")
+	dump := fs.Bool("dump", false, "only write scripts")
+	fs.Parse(os.Args[2:])
+
+	switch cmd {
+	case "check":
+		os.Exit(runCheck(fs.Args(), *repo, *specs, *tier, *jobs, *verbose))
+	case "regl":
+		os.Exit(runRegl(fs.Args(), *repo))
+	}
+
+	w, err := LoadWorld(*repo, []string{*specs})
 	if err != nil {
-		panic(err)
+		fmt.Fprintln(os.Stderr, "load:", err)
+		os.Exit(2)
 	}
-	prog, spkgs := ssautil.AllPackages(pkgs, ssa.GlobalDebug)
-	prog.Build()
-	for _, p := range spkgs {
-		fmt.Println(p.Pkg.Path(), len(p.Members))
+	w.computeWrites()
+	match := func(key string) bool {
+		if *fnFlag == "" {
+			return true
+		}
+		for _, p := range strings.Split(*fnFlag, ",") {
+			if p == key || strings.Contains(key, p) {
+				return true
+			}
+		}
+		return false
 	}
+	switch cmd {
+	case "list":
+		for _, fn := range w.funcList {
+			k := funcKey(fn)
+			if !match(k) {
+				continue
+			}
+			mark := " "
+			if w.specs.Funcs[k] != nil {
+				mark = "*"
+			}
+			fmt.Printf("%s %s  blocks=%d writes=%v\n", mark, k, len(fn.Blocks), sortedHeapNames(w.writes[fn]))
+		}
+	case "loops":
+		for _, fn := range w.funcList {
+			if !match(funcKey(fn)) {
+				continue
+			}
+			fv := NewFuncVerifier(w, fn, Pass{})
+			if len(fv.headers) == 0 {
+				continue
+			}
+			fmt.Println(funcKey(fn))
+			for i, h := range fv.headers {
+				var phis []string
+				for _, in := range h.Instrs {
+					if p, ok := in.(interface{ Comment() string }); ok {
+						_ = p
+					}
+				}
+				fmt.Printf("  loop %d  block %d (%s)  %s  %q %v\n", i, h.Index, h.Comment, fv.loopSrc[h], fv.loopText(h), phis)
+			}
+		}
+	case "verify":
+		pass := Pass{Prop: *prop, Beh: *beh}
+		var all []*Obligation
+		var errs []string
+		for _, fn := range w.funcList {
+			if !match(funcKey(fn)) {
+				continue
+			}
+			fv := NewFuncVerifier(w, fn, pass)
+			fv.Run()
+			all = append(all, fv.obls...)
+			for _, e := range fv.errs {
+				errs = append(errs, funcKey(fn)+": "+e)
+			}
+		}
+		for _, e := range errs {
+			fmt.Println("ERROR", e)
+		}
+		if *dump {
+			os.MkdirAll(*out, 0o755)
+			for i, o := range all {
+				os.WriteFile(fmt.Sprintf("%s/%04d.smt2", *out, i), []byte(o.Script(false)), 0o644)
+				fmt.Printf("%04d %s :: %s\n", i, o.Fn, o.Name)
+			}
+			return
+		}
+		res := Discharge(all, *out, *timeout, *thorough, *jobs)
+		nfail := 0
+		sort.SliceStable(res, func(i, j int) bool { return res[i].Status > res[j].Status })
+		for _, r := range res {
+			if r.Status != "discharged" {
+				nfail++
+				var at []string
+				for _, a := range r.Attempts {
+					at = append(at, fmt.Sprintf("%s=%s(%.1fs)", a.Solver, a.Result, a.Secs))
+				}
+				fmt.Printf("FAIL %s :: %s  [%s] %s  %s\n     %s\n", r.O.Fn, r.O.Name, r.O.Pos, strings.Join(at, " "), r.File, r.O.Src)
+			} else if *verbose {
+				fmt.Printf("ok   %s :: %s  by %s %.2fs\n", r.O.Fn, r.O.Name, r.By, r.Secs)
+			}
+		}
+		fmt.Printf("%d obligations, %d discharged, %d failed, %d errors\n", len(res), len(res)-nfail, nfail, len(errs))
+		if len(w.externals) > 0 && *verbose {
+			b, _ := json.Marshal(sortedKeys(w.externals))
+			fmt.Println("externals without contract:", string(b))
+		}
+		if nfail > 0 || len(errs) > 0 {
+			os.Exit(1)
+		}
+	default:
+		fmt.Fprintln(os.Stderr, "unknown command", cmd)
+		os.Exit(2)
+	}
+}
+
+func envOr(k, d string) string {
+	if v := os.Getenv(k); v != "" {
+		return v
+	}
+	return d
 }
